@@ -36,26 +36,28 @@ claim("C04", "DESIGN.md 6 C04",
 COMMON = (" The extracted model is run against the real crate (arrays, tuples of every arity, Vec; std / alloc-only / no_std builds) on an exhaustive "
           "small space plus thousands of random schedules per run (wakes inside polls, stale and repeated wakers, fresh parent wakers, spurious polls, "
           "early drops, panicking children) and must predict the implementation's trace under the property's projection; a monitor re-evaluates the "
-          "property on every implementation trace. Theorems quantify over all sizes, child behaviours and histories; only the correspondence is sampled.")
+          "property on every implementation trace, and the Coq-extracted trace predicates the theorems are about (runner/montool.ml) are evaluated on the crate's traces too. Theorems quantify over all sizes, child behaviours and histories; only the correspondence is sampled.")
 claim("C01", "DESIGN.md 6 C01",
       "16 theorems: selective strategy - after a Pending return, a child that is awaited, was polled, last answered Pending and whose waker fired implies the newest "
       "parent waker was woken (join/try_join slice+tuple, merge, zip, FutureGroup, StreamGroup), plus quiescence (no wake outstanding => every awaited child polled and "
       "unsignalled); non-selective strategy and race/race_ok/chain/wait_until - every waker ever handed out is the parent waker of that poll and firing it wakes that parent. "
-      "Partial: real thread interleavings are represented by the lock windows of the model; the readiness-lock ghost and 'fire never panics' are by construction of the model's total fire function, not separate theorems." + COMMON)
+      "C01_*_trace restate it over the observable trace (bookkeeping recomputed from the events); C01_fire_total_*: every handle ever handed out names an existing slot, so firing it never fails. "
+      "Partial: real thread interleavings are represented by the lock windows of the model (a wake is atomic with respect to a poll's critical sections)." + COMMON)
 claim("C02", "DESIGN.md 6 C02",
       "Ledger theorems over the complete history closed by a drop (any drop point, a panic at any child poll, a poll after completion): every child dropped exactly once, "
-      "every produced value returned xor dropped exactly once - join/try_join, merge, zip, both groups, chain, race. Partial: wait_until and race_ok have no ledger theorem "
-      "(covered by the correspondence and the monitor only); that the unsafe code implements the PollState table is only exercised." + COMMON)
+      "every produced value returned xor dropped exactly once - join/try_join, merge, zip, both groups, chain, race, race_ok (successes and errors counted separately; "
+      "the returned error aggregate is exactly the errors produced) and wait_until (future and stream form). Partial: that the unsafe code implements the PollState / MaybeUninit "
+      "tables is only exercised through the events it produces (drop counting on every trace), not modelled at byte level." + COMMON)
 claim("C03", "DESIGN.md 6 C03",
       "Trace theorems: no child is polled after Ready / End / its drop event (join family, merge automaton runE, zip, groups chk, race, race_ok runK, chain runC, wait_until); "
       "polling outside a poll is excluded by the shape of the model's operations and compared position by position." + COMMON)
 claim("C05", "DESIGN.md 6 C05", "C05_try_join: at most one result; Ok = positional vector of the children's own Ok values with nobody failed; Err e = the first failure, returned with it, and the last child poll ever made; C05_ledger: stored values are dropped, not returned." + COMMON)
 claim("C06", "DESIGN.md 6 C06", "C06_race_first_wins (Pr): the winner is the first child seen to resolve, in that poll, which is the last child poll ever made; C06_losers_dropped: the losers are dropped unfinished with the race." + COMMON)
 claim("C07", "DESIGN.md 6 C07", "C07_race_ok_first_success (Pk) for the array, tuple and Vec algorithms: first success wins in that poll; Err only when all n failed, positional aggregate; a failed child is never polled again; zero futures -> empty aggregate." + COMMON)
-claim("C08", "DESIGN.md 6 C08", "C08_merge_exactly_once: per input, the yields with that provenance are exactly the items it produced, in order; nothing else is returned; None iff all inputs ended (zero inputs: first poll, after the fix: commit)." + COMMON)
+claim("C08", "DESIGN.md 6 C08", "C08_merge_exactly_once: per input, the yields with that provenance are exactly the items it produced, in order; nothing else is returned; None iff all inputs ended (zero inputs: first poll, after the fix: commit); C08_yields_at_once (automaton eager_b): an item answered by an input is the result of that very poll - the Coq-extracted predicate is also evaluated on every trace of the crate." + COMMON)
 claim("C09", "DESIGN.md 6 C09", "C09_zip_rows (Tz): k-th row = k-th items positional; at most one item ahead; None with the first End, which is the last poll; C09_unmatched_dropped: buffered items are dropped, never yielded." + COMMON)
 claim("C10", "DESIGN.md 6 C10", "C10_chain_sequential (Pc): the sequential automaton accepts the poll list (an input is polled only when every earlier one has ended), results = items in order then None." + COMMON)
-claim("C11", "DESIGN.md 6 C11", "Slab refinement + trace theorems for FutureGroup over all histories of insert/remove/reserve/queries/poll/fire: exactly-once with the insert's key, discipline, len/keys/keys-distinct/capacity, None iff empty, ledger, insert never panics. Partial: extend and capacity-monotone are covered by the correspondence only." + COMMON)
+claim("C11", "DESIGN.md 6 C11", "Slab refinement + trace theorems for FutureGroup over all histories of insert/remove/reserve/queries/poll/fire: exactly-once with the insert's key, discipline, len/keys/keys-distinct/capacity, None iff empty, ledger, insert never panics, capacity never shrinks along any history. Partial: extend is reserve + repeated insert in the runner, validated by the correspondence; the Pending half of none-iff-empty needs 'a future never answers End', which the total model allows." + COMMON)
 claim("C12", "DESIGN.md 6 C12", "The same theorems for StreamGroup: every item of every member exactly once in member order with its key; a member that ends is dropped in that poll and never polled again; None iff no members remain." + COMMON)
 claim("C16", "DESIGN.md 6 C16", "C16_join/merge/zip/group: in the selective strategy the model never polls a child whose last answer was Pending and whose slot has not fired since (ghost flag g_bad16 stays false for all histories); C16_*_trace: the same as a statement about the observable trace alone - the boolean monitor mon16, which recomputes the bookkeeping from the events, accepts every trace of the model (Section GhostTrace: the ghost fields are a function of the trace in every reachable state); checked against the std build." + COMMON)
 claim("C17", "DESIGN.md 6 C17", "C17_merge_window: an input whose script is items only and never runs out has provenance in any n consecutive results, whatever the others do (generic fairness lemma of rotating scans)." + COMMON)
@@ -79,7 +81,7 @@ CO = (" The model is an acceptor at await-resolution granularity (Model/CoStream
       "modelled, only their observable events.")
 claim("C13", "DESIGN.md 6 C13", "C13_within_limit (in-flight <= limit), C13_result_structured (a result only when nothing is in flight), C13_at_most_once (no closure called twice for an item), C13_nothing_after_end. C13_at_least_once_each (when a result is returned without an error every taken item has been through every closure: exactly once)." + CO,
       "Coq proof of invariants over an acceptor + trace inclusion of the crate's observed runs")
-claim("C14", "DESIGN.md 6 C14", "For try_for_each and collect::<Result<Vec<_>, E>>(): C14_stops_taking (no source item after an error is recorded), C14_error_is_genuine (the reported error was returned by a closure future of the run), C14_result_structured / C14_ok_means_exhausted (Ok only with no error, nothing in flight and, without take, an exhausted source), C14_cancelled_work_never_completes." + CO,
+claim("C14", "DESIGN.md 6 C14", "For try_for_each and collect::<Result<Vec<_>, E>>(): C14_stops_taking (no source item after an error is recorded), C14_error_is_genuine (the reported error was returned by a closure future of the run), C14_result_structured / C14_ok_means_exhausted / C14_collect_ok_means_exhausted (Ok only with no error, nothing in flight and, without take, an exhausted source), C14_cancelled_work_never_completes." + CO,
       "Coq proof of invariants over an acceptor + trace inclusion of the crate's observed runs")
 claim("C15", "DESIGN.md 6 C15", "C15_enumerate_is_source_index, C15_source_items_numbered, C15_collect_all, C15_closures_once, C15_take_at_most / C15_take_exactly / C15_take_zero_takes_nothing (take(n): at most n items taken, result only after source end or n items or an error; take(0) takes none - the repaired behaviour)." + CO,
       "Coq proof of invariants over an acceptor + trace inclusion of the crate's observed runs")
